@@ -216,8 +216,8 @@ func execPool(prop string) func(poolCase, core.Source) core.Result {
 			for i, v := range c.Vals {
 				objs[i] = model.Build(v)
 				// the copy is built independently: maps filled in the opposite order, collections through
-				// other constructors (from an array, from a sequence, as a copy)
-				copies[i] = model.BuildVia(reversedInsertion(v), i%4)
+				// other constructors (from an array, from a sequence, as a copy) or filled, emptied and filled again
+				copies[i] = model.BuildVia(reversedInsertion(v), i%5)
 				abs[i] = model.Abstract(objs[i])
 			}
 		}); p {
